@@ -71,6 +71,15 @@ if spec.get('race'):
     out['race'] = res
 elif spec.get('pkgs'):
     # several packages imported one after the other in one process
+    if spec.get('broken'):
+        # a module of the first package that does not compile, guarded by its importer (think of a version-specific submodule)
+        try:
+            __import__(spec['broken'] + '.bad')
+            out['broken_import'] = 'imported'
+        except SyntaxError:
+            out['broken_import'] = 'SyntaxError'
+        except Exception as e:  # noqa
+            out['broken_import'] = type(e).__name__
     out['obs_multi'] = {p: observe(p + '.mod') for p in spec['pkgs']}
 else:
     out['obs'] = observe(spec['pkg'] + '.mod')
